@@ -112,6 +112,18 @@ CHECKS = {
         note="Lines are matched by exact bytes (unique payloads); tag lines re-rendered inside the new header count as "
              "header material; one open finding (KF-C08-1, closer followed by code) is matched by a TLA+ signature.",
         ref="5/C08"),
+    "C20": dict(
+        technique="TLA+ requirement (Copyright.tla: Text for the ten documented prefixes, MergeOK) vs merge mechanism model "
+                  "MMergeAll (all tie-breaks) model-checked by TLC over all notice sets up to the bound; TLC-enumerated / "
+                  "sampled notice sets and the full prefix x year-form x holder product run through the API and through "
+                  "annotate + lint; TLC trace validation",
+        text="TLC proves that every result the merge mechanism can produce keeps all holders, one line each, with a range "
+             "covering all stated years (all notice sets up to the bound), and judges the real builder / reader / merger "
+             "on the full product of ten prefixes x six year forms x a holder grammar, on verbatim notices, and on "
+             "TLC-enumerated and sampled notice sets through both the Python API and the CLI.",
+        note="Prefix texts come from the manual page; notices are tokenised by a reader written for this check; non-ASCII "
+             "text is encoded as <U+XXXX> for TLC.",
+        ref="5/C20"),
     "C03": dict(
         technique="TLA+ requirement CoverReq (three-valued: must / must not / unpinned) vs walk-with-pruning mechanism "
                   "model-checked by TLC; TLC-enumerated directory-context x name-class x type x VCS-wish nodes built as "
